@@ -315,9 +315,10 @@ func (s *Sorter) SortedBlocks(ctx context.Context, removedCols map[int]struct{},
 			}
 
 			// append min row to block
+			// (key indices address the row as it was added, so take the key first)
+			slice.CopyValuesFromIndices(dec.Decode(minRow), rowPK, pkIndices)
 			minRow = r.RemoveFrom(minRow)
 			row := dec.Decode(minRow)
-			slice.CopyValuesFromIndices(row, rowPK, pkIndices)
 			pkOK := prevRowPK == nil || pkIsDifferent(rowPK, prevRowPK)
 			if prevRowPK == nil {
 				prevRowPK = make([]string, len(pkIndices))
